@@ -132,7 +132,12 @@ def framedBody (c : Codec) (r : Reader) (dstLen : Nat) : Reader × Chunk :=
   else
     let frame := deN l
     let input := (r.rest.drop 4).take frame
-    if input.length < frame then ({ r with rest := [], nbytes := r.nbytes + 4 + input.length }, .err)
+    if input.length < frame then
+      -- `if _, err := x.readFull(x.input); err != nil { return 0, err }`: io.ReadFull answers io.EOF when NOT ONE byte of
+      -- the block is there, io.ErrUnexpectedEOF when some are: a stream that stops right after a length field is
+      -- reported as a clean end (observation, docs/notes/C16.md)
+      if input = [] then ({ r with rest := [], nbytes := r.nbytes + 4 }, .eof)
+      else ({ r with rest := [], nbytes := r.nbytes + 4 + input.length }, .err)
     else decodeInto c { r with rest := r.rest.drop (4 + frame), nbytes := r.nbytes + 4 + frame } input dstLen
 
 /-- unframed branch: the header bytes already read plus everything up to EOF is one raw block -/
